@@ -162,6 +162,26 @@ def ops_grid(cfgname):
         add("set-flags-exp-" + vn, "set", "k-new", val, expire=5, flags=7)
         add("set_many-" + vn, "set_many", {"a": val, "b": b"other"}, noreply=False)
         add("set_many-exp-" + vn, "set_many", {"a": val}, expire=5, flags=7)
+    # positional arguments in the order of Client's signature (how FallbackClient and older callers pass them)
+    for m_ in ("set", "add", "replace", "append", "prepend"):
+        add(m_ + "-positional", m_, "h1" if m_ != "set" else "k-new", b"pv", 0, False)
+        add(m_ + "-positional-exp-nr", m_, "h1" if m_ != "set" else "k-new", b"pv", 5, True)
+    add("cas-positional", "cas", "h1", b"c", b"1", 0, False)
+    add("cas-positional-mismatch", "cas", "h1", b"c", b"999", 5, False)
+    add("gets-positional-defaults", "gets", "m1", D, CD)
+    add("delete-positional", "delete", "h1", False)
+    add("incr-positional", "incr", "num", 3, False)
+    add("decr-positional-nr", "decr", "num", 3, True)
+    add("touch-positional", "touch", "h1", 5, False)
+    # (gat/gats are not in this list: upstream HashClient.gat(key, default=None, **kw) takes 'default' second where Client
+    # takes 'expire' - a signature difference the properties acknowledge (C07: defaults by keyword except for get))
+    add("set_many-positional", "set_many", {"a": b"1", "b": b"2"}, 5, False)
+    add("delete_many-positional", "delete_many", ["h1", "m1"], False)
+    # noreply passed explicitly as None
+    add("incr-noreply-none", "incr", "num", 3, noreply=None)
+    add("delete-noreply-none", "delete", "h1", noreply=None)
+    add("touch-noreply-none", "touch", "h1", 5, noreply=None)
+    add("set-noreply-none", "set", "k-new", b"v", noreply=None)
     add("set-badexpire", "set", "k", b"v", expire="soon")
     add("incr-baddelta", "incr", "num", "1")
     add("get_many", "get_many", ["h1", "m1", "num"])
